@@ -15,11 +15,12 @@ const pid = "C03"
 
 // Step is one client line; Kind tells the reference model what it is meant to be.
 type Step struct {
-	Kind string      `json:"kind"`
-	Line string      `json:"line,omitempty"` // sent followed by CRLF ("bin:" prefix = raw bytes in hex-free form below)
-	Raw  []byte      `json:"raw,omitempty"`  // for garbage: bytes (no LF) sent followed by CRLF
-	Rcpt string      `json:"rcpt,omitempty"`
-	Msg  *hx.MailMsg `json:"msg,omitempty"` // DATA: message sent if the server answers 354
+	Kind   string      `json:"kind"`
+	Line   string      `json:"line,omitempty"` // sent followed by CRLF ("bin:" prefix = raw bytes in hex-free form below)
+	Raw    []byte      `json:"raw,omitempty"`  // for garbage: bytes (no LF) sent followed by CRLF
+	Rcpt   string      `json:"rcpt,omitempty"`
+	Msg    *hx.MailMsg `json:"msg,omitempty"`     // DATA: message sent if the server answers 354
+	TooBig bool        `json:"too_big,omitempty"` // the message exceeds the configured maximum size
 }
 
 // SCase is one connection's command sequence.
@@ -37,7 +38,7 @@ func recase(t *rapid.T, s string) string {
 
 var stepGen = rapid.Custom(func(t *rapid.T) Step {
 	switch rapid.SampledFrom([]string{"helo", "helo", "mail", "mail", "mail", "rcpt", "rcpt", "rcpt", "rcpt", "data", "data", "data", "rset", "noop",
-		"misc", "misc", "auth", "junk", "junk", "badmail", "badrcpt", "dataarg", "quit"}).Draw(t, "what") {
+		"misc", "misc", "auth", "junk", "junk", "badmail", "badrcpt", "dataarg", "bigdata", "quit"}).Draw(t, "what") {
 	case "helo":
 		return Step{Kind: "helo", Line: recase(t, rapid.SampledFrom([]string{"HELO c.test", "EHLO c.test", "EHLO [1.2.3.4] extra", "HELO", "EHLO", "EHLO  "}).Draw(t, "helo"))}
 	case "mail":
@@ -51,6 +52,8 @@ var stepGen = rapid.Custom(func(t *rapid.T) Step {
 		return Step{Kind: "badrcpt", Line: "RCPT " + rapid.SampledFrom([]string{"TO:<r@rejected.test>", "TO:<no-at-sign>", "TO:", "FROM:<r@a.test>", "", "TO:<a@b@c>", "TO:<.r@a.test>"}).Draw(t, "badrcpt")}
 	case "data":
 		return Step{Kind: "data", Line: recase(t, "DATA"), Msg: hx.MailMsgGen(hx.SimpleBodyGen, 8).Draw(t, "msg")}
+	case "bigdata":
+		return Step{Kind: "data", Line: "DATA", TooBig: true, Msg: &hx.MailMsg{Subject: "too big", Body: bytes.Repeat([]byte("0123456789abcdef\r\n"), 400)}}
 	case "dataarg":
 		return Step{Kind: "dataarg", Line: "DATA now"}
 	case "rset":
@@ -109,7 +112,11 @@ var segGen = rapid.Custom(func(t *rapid.T) []Step {
 		out = append(out, Step{Kind: "rcpt", Line: "RCPT TO:<" + r + ">", Rcpt: r})
 	}
 	maybe()
-	out = append(out, Step{Kind: "data", Line: "DATA", Msg: hx.MailMsgGen(hx.SimpleBodyGen, 5).Draw(t, "msg")})
+	if rapid.IntRange(0, 5).Draw(t, "big") == 0 {
+		out = append(out, Step{Kind: "data", Line: "DATA", TooBig: true, Msg: &hx.MailMsg{Subject: "too big", Body: bytes.Repeat([]byte("0123456789abcdef\r\n"), 400)}})
+	} else {
+		out = append(out, Step{Kind: "data", Line: "DATA", Msg: hx.MailMsgGen(hx.SimpleBodyGen, 5).Draw(t, "msg")})
+	}
 	return out
 })
 
@@ -148,6 +155,7 @@ func cfgFor(backend string) hx.Cfg {
 	cfg.RejectDomains = []string{"rejected.test"}
 	cfg.RejectOrigin = []string{"origin-rejected.test"}
 	cfg.MaxRecipients = 3
+	cfg.MaxMessageBytes = 4000 // only the "too big" message exceeds it
 	return cfg
 }
 
@@ -274,6 +282,9 @@ func runSeq(c SCase) *hx.Outcome {
 					o.Failf(pid+":no-reply", "%s: after the final dot: %v %v", where, r2, err)
 					break
 				}
+				if r2.Code == 250 && st.TooBig {
+					o.Failf(pid+":oversize-accepted", "%s: a message over the 4000-byte limit was acknowledged", where)
+				}
 				if r2.Code == 250 {
 					completed = true
 					from, to, subj := msg.Expect(sender, accepted)
@@ -285,7 +296,7 @@ func runSeq(c SCase) *hx.Outcome {
 						}
 						model.Add(&hx.EMsg{Mailbox: mb, From: from, To: to, Subject: subj, Sender: sender, Data: tx, NotBefo: t0, NotAfter: time.Now()})
 					}
-				} else if !msg.BadHeader {
+				} else if !msg.BadHeader && !st.TooBig {
 					o.Failf(pid+":canonical-data-refused", "%s: well-formed message answered %v", where, r2)
 				}
 				open, accepted = false, nil
